@@ -132,7 +132,7 @@ CHECKS["C08"] = dict(
 )
 CHECKS["C17"] = dict(
     category="proof",
-    text="PARTIAL. Read-placement half: a query is a list of reads over the stores of the C01 ledger model, a schedule assigns each read a commit index; with snapshot read transactions (repaired code) the answer and the number of reads equal those at the boundary where the View began, for every store sequence and schedule, and coin selection never offers an immature or locked coin at a boundary; witnesses that the code as found mixed boundaries (two commits between the height read and the iterator made confirmations wrap and an immature coinbase selectable). Data-race half: a table (field x function x R/W x thread role x held mutexes) is regenerated from the Go AST on every run and every conflicting pair is proved to share a mutex or be ordered by the suspend/resume hand-shake (or is listed by a computed refutation). Tied to the code by the real handler committing 1-3 blocks between numbered reads of real queries through a DB wrapper (226 scheduled queries per quick run), and by race-detector runs as supporting exploration.",
+    text="PARTIAL. Read-placement half: a query is a list of reads over the stores of the C01 ledger model, a schedule assigns each read a commit index; with snapshot read transactions (repaired code) the answer and the number of reads equal those at the boundary where the View began, for every store sequence and schedule, and coin selection never offers an immature or locked coin at a boundary; witnesses that the code as found mixed boundaries (two commits between the height read and the iterator made confirmations wrap and an immature coinbase selectable). Data-race half: a table (field x function x R/W x thread role x held mutexes) is regenerated from the Go AST on every run and every conflicting pair is proved to share a mutex or be ordered by the suspend/resume hand-shake (or is listed by a computed refutation). Tied to the code by the real handler committing 1-3 blocks between numbered reads of real queries through a DB wrapper (226 scheduled queries per quick run), and by race-detector runs as supporting exploration. Transaction-building calls (automatic selection with its fee / dust rounds, explicit inputs, staking, binding, fee estimate) are modelled as sequences of snapshot read transactions (Sched/Build.v): whatever commits happen between them, a returned transaction is a correct answer at one block boundary (C17_build_single_boundary; refuted for a variant that keeps earlier picks; the unchanged code's wrong REFUSALS are a recorded finding); tied to the code by placing commits of the real handler before every read transaction of ~1600 building calls and judging each result with the extracted boundary predicate.",
     design_ref="DESIGN.md section 5, C17",
     note="Partial: the Go memory model, aliasing, accesses the syntactic translator cannot see and goleveldb snapshot atomicity are outside any Gallina model; 'no coin counted twice' and balances = ledger model at a boundary are explored, not proved; data races inside mass-core's logger are recorded, not counted. Trusted: Coq kernel (no axioms), the lock-table translator, ExtrOcamlBasic + driver, harness (sched wrapper). Two defects repaired (2763853, c8404ce).",
     technique="Coq proof (scheduled-read semantics over the ledger model; lock-set discipline over a source-translated table) + read-numbered correspondence on the real wallet + race-detector exploration",
